@@ -1761,7 +1761,7 @@ func (in *Interp) allocSize(t *Term, tt types.Type, what string) int {
 	v, ok := in.concretize(t, 0, smallMax, sg)
 	if !ok {
 		// sizes between smallMax and MaxAlloc: outside the explored bound
-		panic(pathEnd{fmt.Sprintf("bound: symbolic allocation size > %d not explored", smallMax)})
+		panic(pathEnd{fmt.Sprintf("outside-bound: symbolic allocation size > %d not explored", smallMax)})
 	}
 	return int(v)
 }
